@@ -60,6 +60,10 @@ inductive FAtom where
   | keys
   /-- `krt.FilterObjectName({Namespace: i.ns, Name: "y"})` -/
   | objName
+  /-- `krt.FilterKeys(empty...)` with an empty, non-nil slice: an empty set of keys matches nothing -/
+  | noKeys
+  /-- `krt.FilterKeys()` without arguments (a nil slice): krt treats the nil set as "no key filter": everything -/
+  | nilKeys
   /-- `krt.FilterGeneric(pred n i)` -/
   | generic (n : Nat)
   deriving DecidableEq, Repr, Inhabited
@@ -86,6 +90,8 @@ def FAtom.matches (i : Obj) : FAtom → Obj → Bool
   | .outIndex, o => o.outs.contains (outKeyOf i)
   | .keys, o => o.key == i.ref || o.key == i.ns ++ "/x"
   | .objName, o => o.key == i.ns ++ "/y"
+  | .noKeys, _ => false
+  | .nilKeys, _ => true
   | .generic n, o => genericPred n i o
 
 /-- A fetch = a conjunction of atoms. -/
